@@ -399,5 +399,6 @@ const (
 	maxDictSize          = 65536
 	maxDictStackDepth    = 20
 	maxOperandStackDepth = 500
+	maxProcNesting       = 1000
 	maxStringSize        = 65536
 )
